@@ -1,6 +1,8 @@
 """Loading and indexing of the fact file written by the mtfacts driver, plus generic
 utilities over the resolved shape trees. Nothing here decides a property."""
+import hashlib
 import json
+import os
 import re
 
 CLOSURE_AT = re.compile(r"\{closure@[^{}\"]*\}")
@@ -28,6 +30,8 @@ class Facts:
         for b in self.bodies:
             if "body" in b:
                 b["body"] = simplify(b["body"])
+                if not os.environ.get("VERIF_OLDNAMES"):
+                    canon_locals(b)
         self.body_by_path = {}
         for b in self.bodies:
             self.body_by_path.setdefault(b["path"], b)
@@ -315,3 +319,250 @@ def simplify(n):
 def fmt_text(n):
     """literal skeleton of a fmt node: pieces joined, placeholders as {}"""
     return "".join(p if isinstance(p, str) else "{}" for p in n["pieces"])
+
+
+# ---------------------------------------------------------------------------
+# canonical local names
+#
+# Every rule that renders an expression as text (finding keys, atoms of the reference formulas, templates)
+# would otherwise depend on the names a programmer chose for parameters, let-bindings, loop and pattern
+# variables. Names are replaced at load time by names derived from what the variable *is*:
+#   parameter i                      -> p<i>            (`self` stays)
+#   `let x = <pure expr>` (immutable) -> s_<hash of the canonical text of the initialiser>   (same value = same name)
+#   other let / mutable let           -> l_/m_<hash of (initialiser text, ordinal among equals)>
+#   for / if-let / match / tuple patterns -> e_/v_<hash of (source text, path inside the pattern)>
+#   closure parameters                -> c<depth>_<index><path>
+# The source name is kept as `oname`; CN_NAMES maps canonical -> source name for readable messages.
+
+CN_NAMES = {}
+CN_INIT = {}      # s_ names -> initialiser node (for renderers that substitute)
+_CN_TOKEN = re.compile(r"\b(?:[slmev]_[0-9a-f]{7}|c\d_\d+(?:_[\w]+)?)\b")
+
+
+def readable(text):
+    """replace canonical local names by the source names (for messages only)"""
+    return _CN_TOKEN.sub(lambda m: CN_NAMES.get(m.group(0), m.group(0)), text)
+
+
+def _h(*parts):
+    return hashlib.sha1("\x1f".join(str(p) for p in parts).encode()).hexdigest()[:7]
+
+
+def _ctext(n, depth=0):
+    """compact canonical rendering used only to derive names"""
+    if n is None:
+        return "_"
+    if isinstance(n, list):
+        return "[" + ",".join(_ctext(x, depth + 1) for x in n) + "]"
+    if not isinstance(n, dict):
+        return str(n)
+    if depth > 12:
+        return "…"
+    k = n.get("k")
+    if k == "local":
+        return n.get("name") or "?"
+    if k == "lit":
+        return repr(n.get("v"))
+    if k == "field":
+        return _ctext(n.get("e"), depth + 1) + "." + str(n.get("name"))
+    if k in ("ref", "paren", "cast"):
+        return _ctext(n.get("e"), depth + 1)
+    if k == "un":
+        return str(n.get("op")) + _ctext(n.get("e"), depth + 1)
+    if k == "bin":
+        return "(%s%s%s)" % (_ctext(n.get("l"), depth + 1), n.get("op"), _ctext(n.get("r"), depth + 1))
+    if k == "mcall":
+        return "%s.%s(%s)" % (_ctext(n.get("recv"), depth + 1), n.get("m"),
+                              ",".join(_ctext(a, depth + 1) for a in n.get("args") or []))
+    if k == "call":
+        return "%s(%s)" % ((n.get("inst") or n.get("f") or "?"), ",".join(_ctext(a, depth + 1) for a in n.get("args") or []))
+    if k == "index":
+        return "%s[%s]" % (_ctext(n.get("e"), depth + 1), _ctext(n.get("i"), depth + 1))
+    if k == "try":
+        return _ctext(n.get("e"), depth + 1) + "?"
+    if k == "block" and not n.get("stmts"):
+        return _ctext(n.get("expr"), depth + 1)
+    if k == "fmt":
+        return "fmt(%s;%s)" % ("".join(p if isinstance(p, str) else "{}" for p in n.get("pieces") or []),
+                               ",".join(_ctext(a, depth + 1) for a in n.get("args") or []))
+    if k == "struct":
+        return "%s{%s}" % ((n.get("path") or "").rsplit("::", 1)[-1],
+                           ",".join("%s:%s" % (f.get("name"), _ctext(f.get("e"), depth + 1)) for f in n.get("fields") or []))
+    # generic: kind + children in key order, without line numbers and ids
+    parts = []
+    for kk, v in n.items():
+        if kk in ("k", "ln", "id", "exp", "t", "rt", "bt", "it", "ty", "ga", "oname"):
+            continue
+        if isinstance(v, (dict, list)):
+            parts.append(_ctext(v, depth + 1))
+        elif kk in ("m", "f", "op", "name", "path", "v"):
+            parts.append(str(v))
+    return "%s<%s>" % (k, ",".join(parts))
+
+
+def _pure(n, mutable_ids):
+    for x in walk(n):
+        k = x.get("k")
+        if k == "mcall" and (x.get("rt") or "").startswith("&mut"):
+            return False
+        if k == "ref" and x.get("mut"):
+            return False
+        if k == "local" and x.get("id") in mutable_ids:
+            return False
+        if k in ("assign", "assignop", "closure", "while", "loop", "for"):
+            return False
+    return True
+
+
+def _pat_bindings(p, path, out):
+    if not isinstance(p, dict):
+        return
+    k = p.get("k")
+    if k == "bind":
+        out.append((p, path))
+        if p.get("sub"):
+            _pat_bindings(p["sub"], path, out)
+        return
+    if k in ("ptup", "por"):
+        for i, q in enumerate(p.get("pats") or []):
+            _pat_bindings(q, path + ("" if k == "por" else ".%d" % i), out)
+    elif k == "pts":
+        ctor = (p.get("path") or "").rsplit("::", 1)[-1]
+        for i, q in enumerate(p.get("pats") or []):
+            _pat_bindings(q, path + ".%s%d" % (ctor, i), out)
+    elif k == "pstruct":
+        ctor = (p.get("path") or "").rsplit("::", 1)[-1]
+        for f in p.get("fields") or []:
+            _pat_bindings(f.get("pat"), path + ".%s.%s" % (ctor, f.get("name")), out)
+    elif k in ("pref", "pguard"):
+        _pat_bindings(p.get("pat"), path, out)
+    elif k == "pslice":
+        for i, q in enumerate(p.get("pre") or []):
+            _pat_bindings(q, path + ".pre%d" % i, out)
+        _pat_bindings(p.get("mid"), path + ".mid", out)
+        for i, q in enumerate(p.get("post") or []):
+            _pat_bindings(q, path + ".post%d" % i, out)
+
+
+def canon_locals(b):
+    names = {}          # local id -> canonical name
+    mutable = set()
+    used = {}
+
+    def fresh(base):
+        c = used.get(base, 0)
+        used[base] = c + 1
+        return base if c == 0 else _h(base, c)
+
+    def setname(node, cn):
+        on = node.get("name")
+        node["oname"] = on
+        node["name"] = cn
+        names[node["id"]] = cn
+        if on is not None and cn != on:
+            CN_NAMES.setdefault(cn, on)
+
+    def bind(pat, kind, src_text, init_node=None, clo=None):
+        bs = []
+        _pat_bindings(pat, "", bs)
+        for node, path in bs:
+            is_mut = "Mut" in (node.get("mode") or "").split(",")[-1]
+            if is_mut:
+                mutable.add(node["id"])
+            if node.get("name") == "self":
+                names[node["id"]] = "self"
+                continue
+            if clo is not None:
+                d, i = clo
+                cn = "c%d_%d%s" % (d, i, re.sub(r"\W", "_", path))
+                setname(node, cn)
+                continue
+            if kind == "param":
+                setname(node, "p%s%s" % (src_text, re.sub(r"\W", "_", path)))
+                continue
+            if kind == "let" and not path and not is_mut and init_node is not None and _pure(init_node, mutable):
+                cn = "s_" + _h("s", src_text)
+                setname(node, cn)
+                CN_INIT.setdefault(cn, init_node)
+                continue
+            pre = {"let": "l", "elem": "e", "val": "v"}[kind]
+            if is_mut and kind == "let":
+                pre = "m"
+            base = pre + "_" + _h(pre, src_text, path)
+            cn = fresh(base)
+            if cn != base:
+                cn = pre + "_" + cn
+            setname(node, cn)
+
+    def go(n, cdepth):
+        if isinstance(n, list):
+            for x in n:
+                go(x, cdepth)
+            return
+        if not isinstance(n, dict):
+            return
+        k = n.get("k")
+        if k == "local":
+            cn = names.get(n.get("id"))
+            if cn is not None and cn != n.get("name"):
+                n["oname"] = n.get("name")
+                n["name"] = cn
+            return
+        if k in ("let", "letx"):
+            if n.get("init") is not None:
+                go(n["init"], cdepth)
+            if n.get("pat") is not None:
+                bind(n["pat"], "let" if k == "let" else "val", _ctext(n.get("init")), n.get("init"))
+            for kk in ("els", "else"):
+                if n.get(kk) is not None:
+                    go(n[kk], cdepth)
+            return
+        if k == "for":
+            go(n.get("iter"), cdepth)
+            bind(n.get("pat"), "elem", _ctext(n.get("iter")))
+            go(n.get("body"), cdepth)
+            return
+        if k == "match":
+            go(n.get("e"), cdepth)
+            st = _ctext(n.get("e"))
+            for a in n.get("arms") or []:
+                bind(a.get("pat"), "val", st)
+                if a.get("guard") is not None:
+                    go(a["guard"], cdepth)
+                if isinstance(a.get("pat"), dict):
+                    for g in walk_guards(a["pat"]):
+                        go(g, cdepth)
+                go(a.get("body"), cdepth)
+            return
+        if k == "closure":
+            for i, p in enumerate(n.get("params") or []):
+                bind(p, "clo", "", clo=(cdepth, i))
+            go(n.get("body"), cdepth + 1)
+            return
+        if k == "if":
+            go(n.get("cond"), cdepth)
+            go(n.get("then"), cdepth)
+            go(n.get("else"), cdepth)
+            return
+        for kk, v in n.items():
+            if kk in ("pat", "pats", "params"):
+                continue
+            if isinstance(v, (dict, list)):
+                go(v, cdepth)
+
+    pi = 0
+    for p in b.get("params") or []:
+        bind(p, "param", str(pi))
+        pi += 1
+    go(b["body"], 0)
+
+
+def walk_guards(p):
+    if not isinstance(p, dict):
+        return
+    if p.get("k") == "pguard" and p.get("guard") is not None:
+        yield p["guard"]
+    for q in p.get("pats") or []:
+        yield from walk_guards(q)
+    if p.get("pat"):
+        yield from walk_guards(p["pat"])
